@@ -35,25 +35,45 @@ def spec_label(sc, v):
     return None
 
 
-def value_side(sc: int, v: int) -> bool:
+def warm_up(sc, warm):
+    """a deterministic history before the call under test (every in-range value and every label converted once, a few refusals): the answer
+    must be the same as in a fresh process.  Being part of the harness it is repeated by the replay, so a witness that needs it reproduces."""
+    if not warm:
+        return
+    with Native():
+        for w in list(range(101)) + [-1, 101]:
+            try:
+                SPEC[sc][1](w)
+            except (ValueError, TypeError):
+                pass
+        for lab in list(LABELS[sc]) + ["bogus"]:
+            try:
+                SPEC[sc][2](lab)
+            except (ValueError, TypeError):
+                pass
+
+
+def value_side(sc: int, v: int, warm: bool) -> bool:
     """
     pre: 0 <= sc < NSC
     pre: 0 <= v <= 100
     post: _
     """
     sc = pick(sc, NSC)
+    warm_up(sc, warm)
     got = SPEC[sc][1](v)
     V.reached()
     return got == spec_label(sc, v)
 
 
-def out_of_range(sc: int, v: int) -> bool:
+def out_of_range(sc: int, v: int, warm: bool) -> bool:
     """
     pre: 0 <= sc < NSC
     pre: v < 0 or v > 100
     post: _
     """
     sc = pick(sc, NSC)
+    warm_up(sc, warm)
     try:
         SPEC[sc][1](v)
     except ValueError:
@@ -77,13 +97,14 @@ def monotone(sc: int, a: int, b: int) -> bool:
     return rank[la] <= rank[lb]
 
 
-def label_side(sc: int, s: str) -> bool:
+def label_side(sc: int, s: str, warm: bool) -> bool:
     """
     pre: 0 <= sc < NSC
     pre: len(s) <= 40
     post: _
     """
     sc = pick(sc, NSC)
+    warm_up(sc, warm)
     table = LABELS[sc]
     to_value, to_label = SPEC[sc][2], SPEC[sc][1]
     try:
@@ -160,25 +181,55 @@ def non_label_objects(sc: int, oi: int) -> bool:
     return False
 
 
-def value_after_history(sc: int, v1: int) -> bool:
+def value_after_history(sc: int) -> bool:
     """
-    pre: 0 <= sc < NSC and -2 <= v1 <= 102
+    pre: 0 <= sc < NSC
     post: _
     """
-    sc, v1 = pick(sc, NSC), pick(v1 + 2, 105) - 2
+    sc = pick(sc, NSC)
     to_label = SPEC[sc][1]
     ok = True
     with Native():
-        # history: one conversion of v1 on the same scale first; the answer for every v2 must then be the table's, whatever came before
-        for v2 in range(-2, 103):
-            try:
-                to_label(v1)
-            except ValueError:
-                pass
-            try:
-                got = to_label(v2)
-                ok = ok and 0 <= v2 <= 100 and got == spec_label(sc, v2)
-            except ValueError:
-                ok = ok and not (0 <= v2 <= 100)
+        # history: one conversion of v1 on the same scale first; the answer for every v2 must then be the table's, whatever came before.
+        # Both loops run inside the harness, in a fixed order, so that a witness does not depend on what other paths did to the process.
+        for v1 in list(range(-103, 104)):
+            for v2 in list(range(-103, 104)) + [-202, 202, 10 ** 6, -10 ** 6]:
+                try:
+                    to_label(v1)
+                except ValueError:
+                    pass
+                try:
+                    got = to_label(v2)
+                    ok = ok and 0 <= v2 <= 100 and got == spec_label(sc, v2)
+                except ValueError:
+                    ok = ok and not (0 <= v2 <= 100)
+    V.reached()
+    return ok
+
+
+POOL_EXTRA = ["bogus", "", "None", "none", "6 - Truth cannot be judged", "LOW", "low", "11", "-1", "05", " Low", "Certain "]
+
+
+def label_pairs(sc: int) -> bool:
+    """
+    pre: 0 <= sc < NSC
+    post: _
+    """
+    sc = pick(sc, NSC)
+    to_value = SPEC[sc][2]
+    table = LABELS[sc]
+    pool = sorted({row[0] for spec in SPEC for row in spec[3]}) + POOL_EXTRA
+    ok = True
+    with Native():
+        # two (three) label conversions in a row on the same scale -- also the same unknown label twice: every answer is the table's
+        for l1 in pool:
+            for l2 in pool:
+                for seq in ((l1, l2), (l1, l2, l2)):
+                    for lab in seq:
+                        try:
+                            got = to_value(lab)
+                            ok = ok and lab in table and got == table[lab]
+                        except ValueError:
+                            ok = ok and lab not in table
     V.reached()
     return ok
